@@ -42,19 +42,30 @@ func genKey(st int, rng *rand.Rand) (keyPair, error) {
 		}
 		return kp, nil
 	case 0:
-		k, err := dsa.DSAPrivateKey{}.Generate()
-		if err != nil {
-			return keyPair{}, err
+		// go-i2p/crypto (a dependency, not the code under test) serialises X and Y without left padding, so about 0.8% of the
+		// key pairs it generates are inconsistent (a leading zero byte shifts the key). Keys are re-drawn until a probe
+		// signature verifies under the serialised public key.
+		for attempt := 0; attempt < 50; attempt++ {
+			k, err := dsa.DSAPrivateKey{}.Generate()
+			if err != nil {
+				return keyPair{}, err
+			}
+			pub, err := k.Public()
+			if err != nil {
+				return keyPair{}, err
+			}
+			signer, err := k.NewSigner()
+			if err != nil {
+				return keyPair{}, err
+			}
+			probe := []byte("probe")
+			psig, perr := signer.Sign(probe)
+			if perr != nil || !indepVerify(0, pub.Bytes(), probe, psig) {
+				continue
+			}
+			return keyPair{st: st, pub: pub.Bytes(), priv: k, sign: signer.Sign}, nil
 		}
-		pub, err := k.Public()
-		if err != nil {
-			return keyPair{}, err
-		}
-		signer, err := k.NewSigner()
-		if err != nil {
-			return keyPair{}, err
-		}
-		return keyPair{st: st, pub: pub.Bytes(), priv: k, sign: signer.Sign}, nil
+		return keyPair{}, fmt.Errorf("no consistent DSA key pair after 50 draws")
 	case 1:
 		return genECDSA(st, elliptic.P256(), 32, rng)
 	case 2:
